@@ -20,7 +20,11 @@ single stages compose:
   request for an oracle answer / the INCLUDE marker);
 * `process_build_obeys` — the forest handed to the catalog construction satisfies the hypothesis `obeysF` of the content
   theorems of `C04_Content`, whatever the bytes were; `process_ok_inv` exposes the stages of an accepted run so that
-  those theorems apply to it.
+  those theorems apply to it;
+* `processFS_not_bad` — the same totality for projects of SEVERAL files (`processFS`: INCLUDE at the level of bytes):
+  whatever the files contain and however they include one another, no scanner fault, no exhausted scan, no exhausted
+  include budget (`runFile_budget`: the files on the scanner stack are pairwise distinct entries of the file system, so the
+  stack is never deeper than the number of entries), no exhausted expansion budget.
 -/
 namespace JSight.C01P
 open JSight JSight.Gen JSight.Project
@@ -280,6 +284,323 @@ theorem process_build_obeys {content : Bytes} {o : Oracle} {banned : List Kind} 
   rcases process_ok_inv h with ⟨forest, done, expanded, _, he, hc⟩
   exact ⟨_, hc, decoForest_obeys _ done expanded 0 (C06O.expand_obeys forest expanded he).2⟩
 
+/-! ## projects of several files (`processFS`) -/
+
+/-- outcomes of a project run that are not a catalog and not a located diagnostic: only an exhausted include budget
+or a dangling file index remain possible after this theorem (both are excluded by `runFile_budget` below) -/
+def okF (e : FErr) : Prop := bad e.err = false ∨ e.err = .fault .fuel ∨ e.err = .fault .nilDeref
+
+theorem scanBytes_stop (content : Bytes) (o : Oracle) : (scanBytes content o).stop = (scanFile content o).2.1 := by
+  unfold scanBytes scanFile
+  cases hu : firstInvalidUTF8 content with
+  | some i => simp
+  | none =>
+    simp only
+    have hstop := lexAllC_stop (Src.ofArray content.toArray) o ((Src.ofArray content.toArray).size + 2)
+    generalize lexAllC (Src.ofArray content.toArray) o ((Src.ofArray content.toArray).size + 2) Sc.init [] = res at hstop
+    rcases res with ⟨l, s, sc⟩
+    simpa using hstop
+
+theorem scanBytes_no_fault (content : Bytes) (o : Oracle) (f : Fault) : (scanBytes content o).stop ≠ some (.fault f) := by
+  rw [scanBytes_stop]
+  intro h
+  have := C01.scanFile_no_fault content o f h
+  subst this
+  exact C01.scanFile_terminates content o h
+
+theorem flushF_bad (n : Nat) (st : ASt) (e : FErr) (h : flushF n st = .error e) : bad e.err = false := by
+  unfold flushF at h
+  cases hc : st.cur with
+  | none => simp [hc] at h
+  | some r =>
+    simp only [hc] at h
+    cases hp : place st.ctx.frames st.ctx.roots r.toDir with
+    | error x => simp only [hp] at h; injection h with h; subst h; rfl
+    | ok c => simp [hp] at h
+
+theorem flushF_ok (n : Nat) (st : ASt) (e : FErr) (h : flushF n st = .error e) : okF e := by
+  unfold flushF at h
+  cases hc : st.cur with
+  | none => simp [hc] at h
+  | some r =>
+    simp only [hc] at h
+    cases hp : place st.ctx.frames st.ctx.roots r.toDir with
+    | error x => simp only [hp] at h; injection h with h; subst h; exact Or.inl rfl
+    | ok c => simp [hp] at h
+
+theorem find_go_some (path : Bytes) : ∀ (l : PFS) (i g : Nat) (c : Option Bytes),
+    PFS.find.go path i l = some (g, c) → ∃ nm, i ≤ g ∧ l[g - i]? = some (nm, c)
+  | [], i, g, c, h => by simp [PFS.find.go] at h
+  | (p, x) :: r, i, g, c, h => by
+    unfold PFS.find.go at h
+    split at h
+    · injection h with h; injection h with h1 h2; subst h1; subst h2
+      exact ⟨p, Nat.le_refl _, by simp⟩
+    · rcases find_go_some path r (i + 1) g c h with ⟨nm, hle, hg⟩
+      refine ⟨nm, by omega, ?_⟩
+      have : g - i = (g - (i + 1)) + 1 := by omega
+      rw [this]; simpa using hg
+
+theorem find_some {fs : PFS} {path : Bytes} {g : Nat} {c : Option Bytes} (h : fs.find path = some (g, c)) :
+    ∃ nm, fs[g]? = some (nm, c) := by
+  rcases find_go_some path fs 0 g c h with ⟨nm, _, hg⟩
+  exact ⟨nm, by simpa using hg⟩
+
+/-- the run over the lexemes of one file yields only errors with the property `P`, when `P` holds of every located
+diagnostic and of every error of an included file (included through a valid entry, from a file not on the stack) -/
+theorem runLexs_P (P : FErr → Prop) (hP : ∀ e : FErr, bad e.err = false → P e)
+    (n : Nat) (d : Src) (name : Bytes) (fs : PFS) (banned : List Kind) (stop : Option Stop)
+    (incl : List (Nat × Nat) → Nat → ASt → Except FErr ASt) (stack : List (Nat × Nat)) (f : Nat)
+    (hstop : ∀ x, stop ≠ some (.fault x))
+    (hincl : ∀ pos g st e, (∃ nm c, fs[g]? = some (nm, some c)) → stack.any (·.1 == f) = false →
+      incl ((f, pos) :: stack) g st = .error e → P e) :
+    ∀ (l : List (Lexeme × Nat)) (st : ASt) (e : FErr),
+      runLexs n d name fs banned stop incl stack f l st = .error e → P e
+  | [], st, e, h => by simp [runLexs] at h
+  | (lex, cur) :: rest, st, e, h => by
+    unfold runLexs at h
+    simp only at h
+    split at h
+    · -- INCLUDE
+      cases hf : flushF n st with
+      | error x => simp only [hf] at h; injection h with h; subst h; exact hP _ (flushF_bad n st _ hf)
+      | ok st1 =>
+        simp only [hf] at h
+        split at h
+        · injection h with h; subst h; exact hP _ rfl
+        · cases rest with
+          | nil =>
+            simp only at h
+            cases stop with
+            | none => simp only at h; injection h with h; subst h; exact hP _ rfl
+            | some s =>
+              cases s with
+              | diag i => simp only at h; injection h with h; subst h; exact hP _ rfl
+              | fault x => exact absurd rfl (hstop x)
+              | oracleMiss a c => simp only at h; injection h with h; subst h; exact hP _ rfl
+          | cons pr rest' =>
+            rcases pr with ⟨p, pc⟩
+            simp only at h
+            split at h
+            · injection h with h; subst h; exact hP _ rfl
+            · cases hv : validName (d.slice p.b p.e1) with
+              | error x => simp only [hv] at h; injection h with h; subst h; exact hP _ rfl
+              | ok u =>
+                simp only [hv] at h
+                cases hfd : fs.find (pathJoin (pathDir name) (d.slice p.b p.e1)) with
+                | none => simp only [hfd] at h; injection h with h; subst h; exact hP _ rfl
+                | some gc =>
+                  rcases gc with ⟨g, c⟩
+                  cases c with
+                  | none => simp only [hfd] at h; injection h with h; subst h; exact hP _ rfl
+                  | some content =>
+                    simp only [hfd] at h
+                    split at h
+                    · injection h with h; subst h; exact hP _ rfl
+                    · rename_i hnot
+                      rcases find_some hfd with ⟨nm, hg⟩
+                      cases hi : incl ((f, lex.b) :: stack) g st1 with
+                      | error x =>
+                        simp only [hi] at h; injection h with h; subst h
+                        exact hincl _ _ _ _ ⟨nm, content, hg⟩ (by cases hh : stack.any (fun x => x.1 == f) <;> simp_all) hi
+                      | ok st2 =>
+                        simp only [hi] at h
+                        exact runLexs_P P hP n d name fs banned stop incl stack f hstop hincl rest' st2 e h
+    · split at h
+      · -- JSIGHT in an included file
+        cases hf : flushF n st with
+        | error x => simp only [hf] at h; injection h with h; subst h; exact hP _ (flushF_bad n st _ hf)
+        | ok st1 => simp only [hf] at h; injection h with h; subst h; exact hP _ rfl
+      · split at h
+        · -- keyword
+          cases hf : flushF n st with
+          | error x => simp only [hf] at h; injection h with h; subst h; exact hP _ (flushF_bad n st _ hf)
+          | ok st1 =>
+            simp only [hf] at h
+            cases hk : kindOfKeyword (d.slice lex.b lex.e1) with
+            | none => simp only [hk] at h; injection h with h; subst h; exact hP _ rfl
+            | some k =>
+              simp only [hk] at h
+              split at h
+              · injection h with h; subst h; exact hP _ rfl
+              · exact runLexs_P P hP n d name fs banned stop incl stack f hstop hincl rest _ e h
+        · -- ")"
+          cases hf : flushF n st with
+          | error x => simp only [hf] at h; injection h with h; subst h; exact hP _ (flushF_bad n st _ hf)
+          | ok st1 =>
+            simp only [hf] at h
+            cases hc : closeExplicit st1.ctx.frames st1.ctx.roots with
+            | error x => simp only [hc] at h; injection h with h; subst h; exact hP _ rfl
+            | ok c =>
+              simp only [hc] at h
+              exact runLexs_P P hP n d name fs banned stop incl stack f hstop hincl rest _ e h
+        · -- the other lexemes
+          cases hs : step d banned st lex cur with
+          | error x => simp only [hs] at h; injection h with h; subst h; exact hP _ (step_not_bad d banned st lex cur _ hs)
+          | ok st' =>
+            simp only [hs] at h
+            exact runLexs_P P hP n d name fs banned stop incl stack f hstop hincl rest st' e h
+
+theorem runFile_ok (fs : PFS) (o : Nat → Oracle) (banned : List Kind) :
+    ∀ (fuel : Nat) (stack : List (Nat × Nat)) (f : Nat) (st : ASt) (e : FErr),
+      runFile fs o banned fuel stack f st = .error e → okF e
+  | 0, stack, f, st, e, h => by
+    simp only [runFile] at h; injection h with h; subst h; exact Or.inr (Or.inl rfl)
+  | fuel + 1, stack, f, st, e, h => by
+    unfold runFile at h
+    split at h
+    · rename_i name content hfile
+      simp only at h
+      have hstop := scanBytes_no_fault content (o f)
+      cases hr : runLexs fs.length (Src.ofArray content.toArray) name fs banned (scanBytes content (o f)).stop
+          (runFile fs o banned fuel) stack f (scanBytes content (o f)).lexs st with
+      | error x =>
+        simp only [hr] at h; injection h with h; subst h
+        exact runLexs_P okF (fun e he => Or.inl he) _ _ _ _ _ _ _ _ _ (fun x => hstop x) (fun pos g st e _ _ he => runFile_ok fs o banned fuel _ g st e he) _ _ _ hr
+      | ok st1 =>
+        simp only [hr] at h
+        cases hs : (scanBytes content (o f)).stop with
+        | some s =>
+          cases s with
+          | diag i => simp only [hs] at h; injection h with h; subst h; exact Or.inl rfl
+          | fault x => exact absurd hs (hstop x)
+          | oracleMiss a c => simp only [hs] at h; injection h with h; subst h; exact Or.inl rfl
+        | none =>
+          simp only [hs] at h
+          cases hf : flushF fs.length st1 with
+          | error x => simp only [hf] at h; injection h with h; subst h; exact flushF_ok _ st1 _ hf
+          | ok st2 =>
+            simp only [hf] at h
+            split at h
+            · injection h with h; subst h; exact Or.inl rfl
+            · cases h
+    · injection h with h; subst h; exact Or.inr (Or.inr rfl)
+
+/-! ### the include budget is never exhausted -/
+
+/-- distinct numbers below `n`: at most `n` of them -/
+theorem nodup_bound : ∀ (n : Nat) (l : List Nat), l.Nodup → (∀ x ∈ l, x < n) → l.length ≤ n
+  | 0, l, _, hb => by
+    cases l with
+    | nil => simp
+    | cons a r => exact absurd (hb a (List.mem_cons_self)) (Nat.not_lt_zero _)
+  | n + 1, l, hn, hb => by
+    have h1 : (l.erase n).length ≤ n := by
+      apply nodup_bound n (l.erase n) (hn.erase n)
+      intro x hx
+      have hx' := (hn.mem_erase_iff).mp hx
+      have := hb x hx'.2
+      omega
+    by_cases hm : n ∈ l
+    · have := List.length_erase_of_mem hm
+      omega
+    · rw [List.erase_of_not_mem hm] at h1; omega
+
+/-- the scanner stack: the including files, pairwise distinct, each an entry of the file system that is a file -/
+def StackOK (fs : PFS) (stack : List (Nat × Nat)) : Prop :=
+  (stack.map Prod.fst).Nodup ∧ ∀ x ∈ stack, ∃ nm c, fs[x.1]? = some (nm, some c)
+
+theorem any_false_not_mem {stack : List (Nat × Nat)} {f : Nat} (h : stack.any (·.1 == f) = false) :
+    f ∉ stack.map Prod.fst := by
+  intro hm
+  rcases List.mem_map.mp hm with ⟨x, hx, rfl⟩
+  have : stack.any (·.1 == x.1) = true := List.any_eq_true.mpr ⟨x, hx, by simp⟩
+  rw [h] at this; cases this
+
+theorem runFile_budget (fs : PFS) (o : Nat → Oracle) (banned : List Kind) :
+    ∀ (fuel : Nat) (stack : List (Nat × Nat)) (f : Nat) (st : ASt) (e : FErr),
+      StackOK fs stack → (∃ nm c, fs[f]? = some (nm, some c)) →
+      fs.length + 2 ≤ fuel + stack.length →
+      runFile fs o banned fuel stack f st = .error e → bad e.err = false
+  | 0, stack, f, st, e, hs, hf, hb, _ => by
+    -- impossible: the files on the stack are distinct entries of the file system
+    exfalso
+    have hlen : (stack.map Prod.fst).length ≤ fs.length := by
+      apply nodup_bound _ _ hs.1
+      intro x hx
+      rcases List.mem_map.mp hx with ⟨y, hy, rfl⟩
+      rcases hs.2 y hy with ⟨nm, c, hg⟩
+      exact (List.getElem?_eq_some_iff.mp hg).1
+    simp at hlen
+    omega
+  | fuel + 1, stack, f, st, e, hs, hf, hb, h => by
+    unfold runFile at h
+    split at h
+    · rename_i name content hfile
+      simp only at h
+      have hstop := scanBytes_no_fault content (o f)
+      cases hr : runLexs fs.length (Src.ofArray content.toArray) name fs banned (scanBytes content (o f)).stop
+          (runFile fs o banned fuel) stack f (scanBytes content (o f)).lexs st with
+      | error x =>
+        simp only [hr] at h; injection h with h; subst h
+        refine runLexs_P (fun e => bad e.err = false) (fun e he => he) _ _ _ _ _ _ _ _ _ (fun x => hstop x) ?_ _ _ _ hr
+        intro pos g st' e' hg hany he
+        refine runFile_budget fs o banned fuel ((f, pos) :: stack) g st' e' ?_ hg ?_ he
+        · refine ⟨?_, ?_⟩
+          · simpa using List.nodup_cons.mpr ⟨any_false_not_mem hany, hs.1⟩
+          · intro x hx
+            rcases List.mem_cons.mp hx with rfl | hx
+            · exact hf
+            · exact hs.2 x hx
+        · simp; omega
+      | ok st1 =>
+        simp only [hr] at h
+        cases hs' : (scanBytes content (o f)).stop with
+        | some s =>
+          cases s with
+          | diag i => simp only [hs'] at h; injection h with h; subst h; rfl
+          | fault x => exact absurd hs' (hstop x)
+          | oracleMiss a c => simp only [hs'] at h; injection h with h; subst h; rfl
+        | none =>
+          simp only [hs'] at h
+          cases hf' : flushF fs.length st1 with
+          | error x => simp only [hf'] at h; injection h with h; subst h; exact flushF_bad _ st1 _ hf'
+          | ok st2 =>
+            simp only [hf'] at h
+            split at h
+            · injection h with h; subst h; rfl
+            · cases h
+    · rename_i hno
+      rcases hf with ⟨nm, c, hg⟩
+      exact absurd hg (by intro hh; exact hno nm c hh)
+
+/-- **C01 for projects of several files: no fault.**  Whatever the files contain and however they include one another
+(cycles, self-inclusion, missing files, directories), the run of the composed model over a project whose root is a file
+ends in a catalog skeleton or a located diagnostic: the scanners never fault, every scan terminates, the include budget
+(`number of entries + 2`: a file may be opened once more than the stack is deep before `Push` refuses it) is never
+exhausted, the expansion budget is never exhausted. -/
+theorem processFS_not_bad (fs : PFS) (o : Nat → Oracle) (banned : List Kind) (e : FErr)
+    (hroot : ∃ nm c, fs[0]? = some (nm, some c))
+    (h : processFS fs o banned = .error e) : bad e.err = false := by
+  unfold processFS at h
+  simp only at h
+  cases hr : runFile fs o banned (fs.length + 2) [] 0 {} with
+  | error x =>
+    simp only [hr] at h; injection h with h; subst h
+    exact runFile_budget fs o banned _ [] 0 {} _ ⟨by simp, by simp⟩ hroot (by simp) hr
+  | ok st =>
+    simp only [hr] at h
+    cases he : expand (closeAll st.ctx.frames st.ctx.roots) with
+    | error x =>
+      simp only [he] at h
+      injection h with h; subst h
+      cases x <;> first | rfl | exact absurd he (C07.expand_no_fuel _)
+    | ok expanded =>
+      simp only [he] at h
+      generalize decoForestF fs st.done expanded 0 = bf at h
+      rcases bf with ⟨bf, k⟩
+      simp only at h
+      cases hc : Build.compile banned bf with
+      | ok c => simp [hc] at h
+      | error x =>
+        simp only [hc] at h
+        have hb : ∃ i be, buildErrAt st.done expanded x = .build x i be := by
+          unfold buildErrAt; split <;> exact ⟨_, _, rfl⟩
+        rcases hb with ⟨i, be, hb⟩
+        rw [hb] at h
+        simp only at h
+        injection h with h; subst h; rfl
+
 /-! ## non-vacuity: a concrete document through all the stages -/
 
 /-- `JSIGHT 0.3⏎GET /cats // list⏎  200 any⏎MACRO @m⏎(⏎  Request any⏎)⏎POST /cats⏎  PASTE @m⏎  200 any⏎` -/
@@ -311,5 +632,33 @@ example : stageOf (process "GET /a /b".toUTF8.toList noOracle []) = (2, 7) := by
 example : stageOf (process "JSIGHT 0.3\nBody any\n".toUTF8.toList noOracle []) = (3, 11) := by decide +kernel
 example : stageOf (process "JSIGHT 0.3\nGET /a\n  PASTE @x\n".toUTF8.toList noOracle []) = (4, 20) := by decide +kernel
 example : stageOf (process "GET /a\n  200 any\n".toUTF8.toList noOracle []) = (5, 0) := by decide +kernel
+
+/-! projects: an include cycle (`root → a → root`), an accepted project, a fault inside an included file -/
+
+def b (s : String) : Bytes := s.toUTF8.toList
+def noOracleF : Nat → Oracle := fun _ => noOracle
+
+def stageOfF : Except FErr Build.Cat → Nat × Nat × Nat
+  | .ok c => (0, 0, c.inters.length)
+  | .error ⟨f, .incl .recursion i⟩ => (6, f, i)
+  | .error ⟨f, .incl _ i⟩ => (7, f, i)
+  | .error ⟨f, .scan i⟩ => (1, f, i)
+  | .error ⟨f, _⟩ => (9, f, 0)
+
+-- root.jst includes a.jst, which includes root.jst: root.jst is opened a second time, and its JSIGHT is refused there
+example : stageOfF (processFS [(b "root.jst", some (b "JSIGHT 0.3\nINCLUDE a.jst\n")), (b "a.jst", some (b "INCLUDE root.jst\n"))]
+    noOracleF []) = (7, 0, 0) := by decide +kernel
+-- a.jst and b.jst include one another: a.jst is opened a second time, and ITS INCLUDE is refused (`Push`: recursion)
+example : stageOfF (processFS [(b "root.jst", some (b "JSIGHT 0.3\nINCLUDE a.jst\n")), (b "a.jst", some (b "INCLUDE b.jst\n")),
+    (b "b.jst", some (b "INCLUDE a.jst\n"))] noOracleF []) = (6, 1, 0) := by decide +kernel
+-- an accepted project with a file in a sub-directory that includes its neighbour
+example : stageOfF (processFS [(b "root.jst", some (b "JSIGHT 0.3\nINCLUDE sub/a.jst\n")),
+    (b "sub/a.jst", some (b "GET /a\n  200 any\nINCLUDE b.jst\n")), (b "sub/b.jst", some (b "GET /b\n  200 any\n"))]
+    noOracleF []) = (0, 0, 2) := by decide +kernel
+-- a scanner diagnostic inside the included file, a missing file, a directory
+example : stageOfF (processFS [(b "root.jst", some (b "JSIGHT 0.3\nINCLUDE a.jst\n")), (b "a.jst", some (b "GE?"))] noOracleF [])
+    = (1, 1, 2) := by decide +kernel
+example : stageOfF (processFS [(b "root.jst", some (b "JSIGHT 0.3\nINCLUDE a.jst\n")), (b "d", none)] noOracleF [])
+    = (7, 0, 11) := by decide +kernel
 
 end JSight.C01P
